@@ -59,7 +59,7 @@ add("C12", "exploration",
     "All 65536 message types, name lengths 0..65536 with arbitrary bytes, sequence-id alphabet, 3 writers x 2 readers under every fragmentation policy; strict-version check swept over the first word (quick: all upper halves x 3 + all lower halves; thorough: all 2^32 values) on both readers; every strict prefix rejected; MarshalFastMsg/UnmarshalFastMsg product incl. EXCEPTION messages (also with unknown fields) with input-buffer reuse after decoding.",
     EX_NOTE, "whole-domain sweeps and bounded-exhaustive products against a reference encoder", "E6", "5/C12")
 add("C13", "exploration",
-    "Both directions (bytes -> tree -> bytes, tree -> bytes -> tree) on every generated value tree, all sequences of <= 3 top-level fields, all 121 ordered pairs and 1331 triples of field types inside nested structs (also inside lists and as map values), empty containers of all 121 key/value type pairs and members of different encoded sizes; the tree is compared field by field incl. Go types and the rule that KeyType/ValType are set only where meaningful.",
+    "Both directions (bytes -> tree -> bytes, tree -> bytes -> tree) on every generated value tree, all sequences of <= 3 top-level fields, all 121 ordered pairs and 1331 triples of field types inside nested structs (also inside lists and as map values), list<a>/set<b>/scalar/string for all 121 element-type pairs and map<a,b>/list<c>/scalar for all 1331 type triples inside nested structs, empty containers of all 121 key/value type pairs and members of different encoded sizes; the tree is compared field by field incl. Go types and the rule that KeyType/ValType are set only where meaningful.",
     EX_NOTE, "bounded-exhaustive enumeration of typed field trees against a reference encoder", "E6", "5/C13")
 add("C17", "fault_enumeration",
     "In-memory: every failing call of the Binary readers/ReadMessageBegin/Skip met on all grammar-alphabet strings, all version halves, prefixes/perturbations and deep chains is classified by an independent reference into truncated / unknown type / negative size / bad version / depth and the protocol-exception type id must be admissible. Stream: every BufferReader method on streams cut at EVERY byte position x 8 terminal error values (wrapped sentinels, an error wrapping a protocol exception, a typed error wrapping its cause, wrapped io.EOF, a timeout) x end style x chunk policy, runs of 1..300 empty reads before the error, declared sizes beyond 64 MiB: the failure must match the source's error under errors.Is; pooled readers are deliberately reused across cases so stale state would show.",
